@@ -76,9 +76,9 @@ def plan(thorough, rng):
     wide, deep = [], []
     for i, c in enumerate(pw):
         wide.append(setting(c, ec.MODES[(i + vf.SEED) % 3]))
-    for c in (lo, hi):
-        for m in ec.MODES:
-            wide.append(setting(c, m))
+    for m in ec.MODES:                                   # every mode has its unoptimised baseline
+        wide.append(setting(lo, m))
+    wide.append(setting(hi, ec.MODES[vf.SEED % 3]))
     if thorough:
         for c in pw:
             for m in ec.MODES:
@@ -162,9 +162,12 @@ def run():
             raise vf.NoVerdict("generators too weak: %d programs, %d control cases, %d cells" % (len(core), len(ctl), len(arith)))
         rng.shuffle(ctl)
         rng.shuffle(arith)
-        ctl = ctl[:1500 if thorough else 300]
+        if thorough and len(core) > 3000:           # (the whole table is run by C01 / C04; here every program meets ~16-110 settings)
+            rng.shuffle(core)
+            core = core[:3000]
+        ctl = ctl[:1500 if thorough else 200]
         # statement forms the optimizer rewrites first (x = x + k, x += k, x++), then the rest
-        arith = ([c for c in arith if c["form"] in ("asg", "cas", "inc")] + [c for c in arith if c["form"] not in ("asg", "cas", "inc")])[:6000 if thorough else 1200]
+        arith = ([c for c in arith if c["form"] in ("asg", "cas", "inc")] + [c for c in arith if c["form"] not in ("asg", "cas", "inc")])[:6000 if thorough else 800]
         vf.log("corpus: %d programs, %d control cases, %d arithmetic cells; %d settings (+%d on a sample)" % (len(core), len(ctl), len(arith), len(wide), len(deep)))
         stats, base, total, classes = {}, {}, 0, set()
         alone_n = [0]
@@ -173,9 +176,9 @@ def run():
             if deep:
                 sample = list(cases)
                 random.Random(vf.SEED + 7).shuffle(sample)
-                groups.append((deep, sample[:1500]))
+                groups.append((deep, sample[:600]))
             for gi, (settings, cs) in enumerate(groups):
-                obs = ec.run_matrix(ego, env, sd, adapter, cs, settings, nproc=8, stats=stats, tag="g%d" % gi)
+                obs = ec.run_matrix(ego, env, sd, adapter, cs, settings, nproc=10, stats=stats, tag="g%d" % gi)
 
                 def rerun(pairs, adapter=adapter):
                     stats["processes"] = stats.get("processes", 0) + len(pairs)
